@@ -119,6 +119,66 @@ func runC17(cfg Config) {
 		rep.Count(line, n > 0, "hash:"+alg)
 	}
 
+	// runs of zero bytes and almost-zero buffers (session 7, after seeded change C17-l: a fast path of Digest.Sum for
+	// all-zero buffers whose zero test skipped a window before the last 8 bytes): the digest of zeros(n) and of zeros(n)
+	// with one bit set at every position class of the tail, in both orders, against the driver's SHA implementations;
+	// and VerifyIndex on all-zero chunks of 512..4500 bytes with one byte altered anywhere in the last 72 bytes
+	for it := 0; it < cfg.N(60, 1500); it++ {
+		alg := []string{"sha512", "sha256"}[it%2]
+		zn := 500 + rng.Intn(700)
+		z := make([]byte, zn)
+		pos := zn - 1 - rng.Intn(72)
+		if it%5 == 4 {
+			pos = rng.Intn(zn)
+		}
+		nz := make([]byte, zn)
+		nz[pos] = 1 << uint(rng.Intn(8))
+		lines := []string{"hash alg=" + alg + " data=" + hx(z), "hash alg=" + alg + " data=" + hx(nz)}
+		if it%4 >= 2 {
+			lines[0], lines[1] = lines[1], lines[0]
+		}
+		lines = append(lines, lines[0])
+		for _, line := range lines {
+			rep.Compare(m, line, implHash, nil)
+			rep.Count(line, true, "hash-zeros:"+alg)
+		}
+	}
+	for it := 0; it < cfg.N(40, 1000); it++ {
+		alg := []string{"sha512", "sha256"}[it%2]
+		setDigest(alg)
+		var sizes []int
+		total := 0
+		for i := 0; i < 1+rng.Intn(12); i++ {
+			zs := 512 + rng.Intn(4000)
+			sizes = append(sizes, zs)
+			total += zs
+		}
+		blob := make([]byte, total)
+		if it%3 == 0 { // some chunks not zero
+			rng.Read(blob[:sizes[0]])
+		}
+		cs := indexOf(blob, sizes)
+		setDigest("sha512")
+		workers := 1 + rng.Intn(6)
+		line := fmt.Sprintf("verify.index alg=%s n=%d dev=0 chunks=%s file=%s", alg, workers, chunksAbsStr(cs), hx(blob))
+		if got := implVerifyIndex(line); got != "ok" {
+			monitor("a file of zero runs that matches its index is rejected", line, got)
+		}
+		rep.Count(line, true, "verify:zero-runs")
+		for q := 0; q < 4; q++ {
+			k := rng.Intn(len(cs))
+			end := int(cs[k].Start + cs[k].Size)
+			pos := end - 1 - rng.Intn(72)
+			f := append([]byte{}, blob...)
+			f[pos] ^= 1 << uint(rng.Intn(8))
+			l2 := fmt.Sprintf("verify.index alg=%s n=%d dev=0 chunks=%s file=%s", alg, workers, chunksAbsStr(cs), hx(f))
+			if got := implVerifyIndex(l2); got == "ok" {
+				monitor(fmt.Sprintf("a file that differs from the indexed blob in one byte (offset %d, %d bytes before the end of an all-zero chunk of %d bytes) is accepted", pos, end-pos, cs[k].Size), l2, got)
+			}
+			rep.Count(l2, true, "verify:zero-runs-flip")
+		}
+	}
+
 	n := cfg.N(700, 20000)
 	for it := 0; it < n; it++ {
 		alg := []string{"sha512", "sha256"}[rng.Intn(2)]
